@@ -6,7 +6,7 @@ TV = "translation_validation"
 MC = "model_checking"
 
 trust_sh = ("trusted: RefTSH (reference AST evaluator) and ShSem (semantics of the emitted Bash subset, calibrated against "
-            "/bin/bash by `verif selftest`), intrinsic models of fmt/strings/strconv/regexp, z3 4.8.12; program shapes are "
+            "/bin/bash by `verif selftest`), intrinsic models of fmt/strings/strconv/regexp, z3 4.8.12 as deciding solver with every final verdict (thorough: every pruning unsat too) re-decided by z3 5.1.0; program shapes are "
             "enumerated (listed in evidence), values/bytes on each shape are symbolic and decided by the solver; "
             "counterexamples are replayed on the native transpiler and the real bash before being reported; a path the engine or "
             "ShSem cannot interpret (e.g. after a refactoring) is decided by concrete native probes of that path and counted as such")
@@ -42,26 +42,27 @@ checks["C12"] = (MC,
     "metamorphic check executed in the SSA executor: for gap positions of seed programs (all gaps of hand-written "
     "statement-form seeds incl. multi-line raw string literals, sampled gaps of the repository's test programs) the layout is replaced from menus of "
     "blanks/tabs/comments (also block comments with a line break)/blank lines/CRLF/final-newline variants; acceptance and emitted bytes must equal those of the "
-    "original layout for both targets; a second harness inserts 1..2 symbolic bytes over {blank, tab} at every gap of the "
-    "hand-written seeds (the lexer runs on the symbolic bytes); rejected programs are seeds too (acceptance must not change)",
+    "original layout for both targets; a second harness inserts, at every gap of the "
+    "hand-written seeds, 1..2 symbolic bytes over {blank, tab}, or a block comment of 0..3 symbolic content bytes over {a * / blank \"} (no terminator inside), "
+    "or a line comment of 0..3 symbolic bytes before a line break (the lexer runs on the symbolic bytes); rejected programs are seeds too (acceptance must not change)",
     "reduced strength: the layouts are explored by explicit nondeterministic choice in the executor and outputs are compared "
-    "syntactically - no solver query is needed for the menu-driven harness (evidence reports 0), only the symbolic-blanks harness "
-    "runs the lexer on symbolic bytes (decided by the byte-domain procedure); "
+    "syntactically - no solver query is needed for the menu-driven harness (evidence reports 0), only the symbolic-blanks/comments harness "
+    "runs the lexer on symbolic bytes (decided by the byte-domain procedure, by z3 where the code compares bytes relationally); "
     "trusted: host-side token splitter that defines token-preserving re-layouts; differences are re-confirmed on the "
     "native build; outside: layouts not in the menus, windows wider than 2 gaps (quick: 70 sampled gaps of the short test programs, thorough: 600 of all)",
     "SSA execution of lexer+parser+both back-ends on re-laid-out sources (explicit nondeterministic layout choice), byte equality of outputs")
 checks["C13"] = (MC,
     "bounded symbolic execution of Transpile for both targets: main file of n fully symbolic bytes (n<=2 quick, n<=3 "
     "thorough), token positions of the repository's test programs replaced by a symbolic byte or a menu lexeme, all import "
-    "graphs over three files incl. cycles, 51 statement forms x 10 contexts (jumps, bare expressions, value-less calls as operands), "
+    "graphs over three files incl. cycles, 59 statement forms x 10 contexts x {main file, imported file} (jumps, bare expressions, value-less calls as operands, public multi-value declarations), "
     "call graphs with exponentially many call paths; assertion: no Go panic, instruction/depth budget not exceeded, result is "
     "(script,nil) or (\"\",non-empty error)",
     "trusted: intrinsic models, virtual file system; hang candidates and panics are reproduced on the native build under a "
     "watchdog before being reported; outside: longer symbolic files, double-token edits (thorough samples more positions)",
     "SSA symbolic execution with panic capture and budgets; z3 / byte-domain decision for branch feasibility")
 checks["C14"] = (MC,
-    "bounded exploration in the SSA executor of call histories (1..2 quick, 1..3 thorough) on one transpiler object over 6 "
-    "programs (one uses every statement form of the language, one is another program's tree after an edit in place) x 2 targets (histories of three calls over three of the programs), "
+    "bounded exploration in the SSA executor of call histories (1..2 quick, 1..3 thorough) on one transpiler object over 8 "
+    "programs (one uses every statement form of the language, one is another program's tree after an edit in place, one fails in the converter after code was emitted, one fails in the parser) x 2 targets (histories of three calls over three of the programs), "
     "3 directory spellings paired with 3 ways the process was started (argv[0], working directory) and every permutation of every map range; each call's text must equal, "
     "for all values of the symbolic integer literals, the text of the same call alone at the canonical location; plus "
     "native repetition/relocation/fresh-process runs under three environments (PATH, HOME, locale, time zone)",
@@ -81,14 +82,14 @@ EXTRA_CHECKS["C08"] = (TV,
     "those classes; anything else is reported", tech_sh + " with per-character-class enumeration of counterexamples")
 EXTRA_CHECKS["C17"] = (TV,
     "as C08 for histories of write/append/read/exists over two paths (top level and in a function, plus a path with a "
-    "blank; fixed shapes for empty content, empty and glob-like paths of exists(), several exists() in one expression, "
+    "blank, a path next to its .tmp neighbour, and histories next to seven pre-existing neighbour files that must survive unchanged; fixed shapes for empty content, empty and glob-like paths of exists(), several exists() in one expression, "
     "content and path computed by calls): the resulting virtual file system and the printed reads are compared with a line-store model for all "
     "contents; violations enumerated per character class and confirmed on the real bash (file system included)",
     trust_sh, tech_sh)
 EXTRA_CHECKS["C18"] = (TV,
     "as C08 for program calls: probe programs print their argument vector and standard input; the value under test sits "
     "at a symbolic argument position, literal or via a variable, in call statements, captures and 2..3-stage pipelines "
-    "with exit statuses 0/3/200, stage arguments computed by order-dependent calls, nested program calls as arguments; "
+    "with exit statuses 0/3/200, stage arguments computed by order-dependent calls, nested program calls as arguments, programs named by identifiers with result variables/parameters named like the program; "
     "expected argv/pipe/capture/order behaviour from the reference model; Bash only",
     trust_sh + "; the Batch counterpart (_ach through cmd /V:ON) is not claimed (no cmd.exe)", tech_sh)
 EXTRA_CHECKS["C15"] = (TV,
@@ -120,7 +121,7 @@ EXTRA_CHECKS["C09"] = (TV,
     trust_sh + "; counterexamples are replayed natively with a comment nonce that gives the real SHA-256 prefix the same class",
     tech_sh)
 EXTRA_CHECKS["C10"] = (MC,
-    "the real pipeline is executed symbolically with one user identifier (12 roles) spelled by 1..4 (quick) / 1..5 "
+    "the real pipeline is executed symbolically with one user identifier (21 roles; in six of them the identifier may also equal another identifier that Go keeps apart - nested block, function, sibling, range, switch clause) spelled by 1..6 (quick) / 1..8 "
     "(thorough) symbolic bytes; on every accepted path z3 is asked for each spelling under which a name derived from "
     "the identifier equals another word of the emitted script or a name the shell owns, or differs from another identifier "
     "of the program only in letter case; each spelling found is run "
@@ -162,10 +163,10 @@ EXTRA_CHECKS["C19"] = (MC,
     "symbolic execution of main.main/parseOptions over os.Args built from option/value menus in both orders with short "
     "or long flags, one flag spelled by two symbolic bytes, noise options and trailing singletons, on a virtual file "
     "system with accepted/rejected/invalid inputs (one imports a file with top-level state, one the standard library), values "
-    "with a blank at an edge, and long stale outputs; assertions: a run with valid options whose input the library accepts succeeds; on normal return exactly D/<stem>.<ext> "
+    "with a blank at an edge, and long stale outputs whose modification times are symbolic instants (replayed natively with os.Chtimes); assertions: a run with valid options whose input the library accepts succeeds; on normal return exactly D/<stem>.<ext> "
     "per target equals (for all values of the program's symbolic literal) the library result for a fresh converter; on "
     "panic or os.Exit(n>0) no new/changed file for the failing target; exit status 0 only with complete, valid options; input never modified",
-    "trusted: virtual file system and os/filepath models; candidates are re-run with the natively built tsh binary; "
+    "trusted: virtual file system and os/filepath models; candidates are re-run with the natively built tsh binary; paths the executor cannot follow are probed natively (budget spread over the argument orders); "
     "outside: more than 2 (quick) / 3 (thorough) -t options, write failures",
     "SSA symbolic execution of the command's main with symbolic argument bytes; z3 decides flag spellings and output equality")
 checks.update(EXTRA_CHECKS)
